@@ -491,14 +491,14 @@ func TestC14(t *testing.T) {
 		"duplicate of another height, swapped pair, well-formed map of a foreign height} at {first, last, first/last of a batch, anywhere}; arrival order inside every batch " +
 		"{in order, reverse, drawn permutation} enforced by gating the fetch function (next map is released when the previous one was validated), or free-running. " +
 		"non-trivial: at least 2 batches and (a fault is present or the count is a multiple of the limit); distinct by (previous height, count, limit, fault, positions, order)")
-	r.Floor(150)
+	r.Floor(1000)
 	r.Assume("the fetch function returns a non-nil valid-looking map or an error (launch's syncerBlockMapFunc decodes and IsValid()s the map; a non-genesis manifest has a previous hash); it does NOT compare the map's height with the requested one, so maps of another height are in the input domain",
 		"if every delivered map has the requested height the verdict is judged two-sided; with maps of other heights only the safety side is judged (success implies exactly one map per height, linked)",
 		"genesis has nothing before it: its previous hash is not judged")
 
 	var graceTotal atomic.Int64
 
-	r.Checks(1500, 60000)
+	r.Checks(8000, 400000)
 	r.ShrinkTime(30 * time.Second)
 	rapid.Check(t, func(rt *rapid.T) {
 		p := c14GenPlan().Draw(rt, "plan")
